@@ -4,6 +4,7 @@ import TwistedProps.C58.Defs
 import TwistedProps.C58.Handler
 import TwistedProps.C58.Inv
 import TwistedProps.C58.Consumers
+import TwistedProps.C58.TimeUnit
 /-!
 C58 — ClientService keeps one connection and resolves every waiter.
 
@@ -28,6 +29,9 @@ service is notified — it may call whenConnected / startService / stopService, 
 `every_loss_completes_stop_partial` and `started_service_is_never_idle_partial` say that a loss is always noticed.
 Consumers of the Deferreds may call `startService()` from their callbacks (`runC`, re-entrant start postponed by
 automat): `consumer_restart_is_a_start_event` reduces every such history to a plain one, for ALL histories.
+
+Time is a natural number of units in the model; `step_time_unit` / `run_time_unit` (TwistedProps/C58/TimeUnit.lean, ALL states,
+events, policies) show that the unit is arbitrary, which is how the tie plays fractional delays (units of 1/2, 1/4, 1/8 s).
 
 * for ALL histories (every event, any hook): every whenConnected and stopService Deferred fires at most once,
   none is lost, a fired one is never still waiting (`whenConnected_fires_at_most_once`, `stopService_fires_at_most_once`,
@@ -347,6 +351,20 @@ theorem every_loss_completes_stop_partial (pol : Nat → Nat) (h : List Ev) (i :
   · have hm' : j ∈ s'.stopWaiters := hm
     rw [hw] at hm'; cases hm'
   · exact hm
+
+/-! ### the unit of time -/
+
+/-- ALL histories, any policy, any `k > 0`: with every duration (policy delays, clock advances) expressed in a unit `k`
+    times finer, the service accepts / rejects exactly the same events and ends in the same state, its pending retry in
+    the finer unit (`run_time_unit`, TwistedProps/C58/TimeUnit.lean).  The tie uses it with units of 1/2, 1/4, 1/8 s. -/
+theorem time_unit_is_arbitrary (k : Nat) (hk : 0 < k) (pol : Nat → Nat) (h : List Ev) :
+    run (fun n => k * pol n) init (h.map (scaleEv k)) = scaleSt k (run pol init h)
+    ∧ (exec (fun n => k * pol n) init (h.map (scaleEv k))).map (·.2) = (exec pol init h).map (·.2) :=
+  run_time_unit k hk pol init h
+
+-- non-vacuity: in quarter units the retry after two failures is 4 * policy(2) away and comes exactly then
+example : (run (fun n => 4 * (n + 1)) init ([Ev.start, .cfail, .adv 2, .cfail].map (scaleEv 4))).timer = some 12
+    ∧ (run (fun n => 4 * (n + 1)) init ([Ev.start, .cfail, .adv 2, .cfail, .adv 2, .adv 1].map (scaleEv 4))).ms = .connecting := by decide
 
 /-! ### consumers that restart the service from a callback of a stopService / whenConnected Deferred -/
 
